@@ -541,7 +541,11 @@ ConvRemove(c, pick) ==
     /\ ConvRemoveOK(c)
     /\ LET tg1 == [t \in DOMAIN tags |-> [tags[t] EXCEPT !.convs = @ \ {c}]]
            b0 == AfterDrop(Bundle(tg1, flags, jobs, use, during, Without(toConv, c)), indexes, pick)
-       IN pick \in TagPicks(DropTags(tg1), flags) /\ Install(b0)
+           \* removeConverter detaches the converter from every tag first (also from tags it is not attached to); the detach of the
+           \* last tag finds no other tag with the converter and invalidates as well: with at least one tag the invalidation runs
+           \* twice, the second time next to the tagging job the first one started (its streams count as updated during the job)
+           b1 == IF DOMAIN tags = {} THEN b0 ELSE [b0 EXCEPT !.during.upd = @ \cup allS]
+       IN pick \in TagPicks(DropTags(tg1), flags) /\ Install(b1)
     /\ cache' = Without(cache, c)
     /\ UNCHANGED <<settings, known, queue, nextID, allS, files, indexes, unmerge, views>>
 ConvAddOK(c) == c \notin DOMAIN toConv
